@@ -308,6 +308,9 @@ func generate(h *harness) {
 	for i := 0; i < run.Scale(12, 120); i++ {
 		push(burst(run.Rand.Fork(), run.Rand.Range(60, 260)))
 	}
+	for i := 0; i < run.Scale(4000, 40000); i++ {
+		push(Session{Proto: hx.Pick(run.Rand, []string{"ws", "tws"}), Ending: "sclose", Early: true})
+	}
 	flush()
 	// 3. random longer histories
 	n := run.Scale(1500, 30000)
